@@ -2,6 +2,7 @@ package main
 
 import (
 	"fmt"
+	"os"
 	"go/token"
 	"go/types"
 	"strings"
@@ -24,6 +25,36 @@ func hasArrayLeaf(t types.Type) bool {
 }
 
 func (vc *VC) instr(in ssa.Instruction, h *Heap) {
+	if vc.skipped(in) {
+		return
+	}
+	vc.instr1(in, h)
+}
+
+// skipped reports whether the instruction only feeds logging (see logonly.go).
+func (vc *VC) skipped(in ssa.Instruction) bool {
+	if vc.logSkip == nil {
+		vc.logSkip = map[ssa.Instruction]bool{}
+		vc.logSkipFn = map[*ssa.Function]bool{}
+	}
+	if pf := in.Parent(); pf != nil && !vc.logSkipFn[pf] {
+		vc.logSkipFn[pf] = true
+		m := computeLogOnly(pf)
+		for k := range m {
+			vc.logSkip[k] = true
+		}
+		if os.Getenv("GOVC_DEBUG_LOGSKIP") != "" {
+			n := 0
+			for _, b := range pf.Blocks {
+				n += len(b.Instrs)
+			}
+			fmt.Fprintf(os.Stderr, "logskip %s: %d of %d instrs\n", pf.String(), len(m), n)
+		}
+	}
+	return vc.logSkip[in]
+}
+
+func (vc *VC) instr1(in ssa.Instruction, h *Heap) {
 	switch x := in.(type) {
 	case *ssa.DebugRef:
 		return
@@ -38,7 +69,7 @@ func (vc *VC) instr(in ssa.Instruction, h *Heap) {
 			dyn = vc.typeID(et)
 			vc.recordIDType(dyn, et)
 		}
-		o := vc.alloc(h, vc.curR, dyn)
+		o := vc.alloc(h, vc.curR, dyn, et)
 		vc.vals[x] = []string{"(mkptr " + o + " 0 0)"}
 	case *ssa.FieldAddr:
 		base := ptrAddr(vc.val1(x.X))
@@ -124,7 +155,7 @@ func (vc *VC) instr(in ssa.Instruction, h *Heap) {
 		} else if _, isIface := t.Underlying().(*types.Interface); isIface {
 			vc.vals[x] = vc.val(x.X)
 		} else {
-			o := vc.alloc(h, vc.curR, 0)
+			o := vc.alloc(h, vc.curR, 0, t)
 			vc.store(h, Addr{o, "0", "0"}, t, vc.val(x.X))
 			vc.setVal(x, []string{"(mkiface " + tid + " (mkptr " + o + " 0 0))"})
 		}
@@ -134,10 +165,10 @@ func (vc *VC) instr(in ssa.Instruction, h *Heap) {
 		vc.sliceOp(x, h)
 	case *ssa.MakeSlice:
 		dyn, _ := vc.backingType(x.Type())
-		o := vc.alloc(h, vc.curR, dyn)
+		o := vc.alloc(h, vc.curR, dyn, x.Type())
 		vc.setVal(x, []string{"(mkslice " + o + " 0 0 " + vc.val1(x.Len) + " " + vc.val1(x.Cap) + ")"})
 	case *ssa.MakeMap:
-		o := vc.alloc(h, vc.curR, vc.mapTypeID(x.Type()))
+		o := vc.alloc(h, vc.curR, vc.mapTypeID(x.Type()), x.Type())
 		vc.vals[x] = []string{o}
 	case *ssa.MakeChan:
 		o := vc.alloc(h, vc.curR, 0)
@@ -482,6 +513,9 @@ func (vc *VC) ifaceEq(x, y string) string {
 	vc.declareRaw("iface_eq", "(declare-fun iface_eq (Iface Iface) Bool)")
 	if !strings.Contains(x+y, "q_") {
 		vc.assume("(=> (iface_eq " + x + " " + y + ") (= (i_tid " + x + ") (i_tid " + y + ")))")
+		// dynamic values of pointer type compare by identity
+		vc.declareRaw("ptr_tid", "(declare-fun ptr_tid (Int) Bool)")
+		vc.assume("(=> (and (iface_eq " + x + " " + y + ") (or (= (i_tid " + x + ") 0) (ptr_tid (i_tid " + x + ")))) (= " + x + " " + y + "))")
 	}
 	return "(or (= " + x + " " + y + ") (iface_eq " + x + " " + y + "))"
 }
@@ -621,22 +655,29 @@ func (vc *VC) next(x *ssa.Next, h *Heap) {
 		if mt, ok := rng.X.Type().Underlying().(*types.Map); ok && !x.IsString {
 			m := vc.val1(rng.X)
 			okv := vc.declare(vc.fresh("nextok"), "Bool")
-			kt := tup.At(1).Type()
+			kt := mt.Key()
 			k := vc.freshVals("nextk", kt)
 			vc.assumeRanges("true", k, kt, *h)
 			vals, has := vc.mapLookup(h, m, mt, k[0])
 			vc.assume(implies(okv, has))
 			// when the map is empty iteration ends immediately
 			vc.assume(implies(eq(sel(vc.mapLen(h), m), "0"), not(okv)))
-			var vterms []string
-			if _, isInvalid := tup.At(2).Type().(*types.Basic); isInvalid && tup.At(2).Type() == types.Typ[types.Invalid] {
-				vterms = nil
+			// tuple slots of unused iteration variables have the invalid type (one dummy leaf)
+			out := []string{okv}
+			if tup.At(1).Type() == types.Typ[types.Invalid] {
+				out = append(out, "0")
 			} else {
-				vterms = vals
+				out = append(out, k...)
 			}
-			out := append([]string{okv}, k...)
-			out = append(out, vterms...)
-			vc.setVal(x, out)
+			if tup.At(2).Type() == types.Typ[types.Invalid] {
+				out = append(out, "0")
+			} else {
+				out = append(out, vals...)
+			}
+			vc.vals[x] = nil
+			named := make([]string, len(out))
+			copy(named, out)
+			vc.vals[x] = named
 			vc.note("range over map: iteration order unconstrained, visited-set not tracked")
 			return
 		}
